@@ -42,12 +42,13 @@ func init() {
 			"P-limit":           "per result-losing action in the enumeration callback: on the matcher-error path or under fact cands.sorted",
 			"P-postsort":        "per SortType constant: unsorted source ⇒ sort call (or error) on every path from enumeration to a non-nil result",
 			"P-nodup":           "per corpus enumerator in the source table × callback invocation: loop depth <= 1, or guarded by a local seen-set look-up, or recorded exception",
+			"P-fresh":           "C06's K-inval reported for C08: the generation-stamped sorted-permanode caches behind the sources flagged sorted are invalidated by every live write of a location their order is computed from (generation increment on every such path through Corpus.addBlob), served only on the stamp==generation edge, and the generation only grows",
 			"P-truncate":        "per SortType constant except MapSort: unsorted source and 0<Limit<len ⇒ bounded re-slice of res.Blobs on every path to a non-nil result",
 		},
 		Run:       runC08,
 		DesignRef: "DESIGN.md §4 C08",
 		Technique: "static analysis: exhaustive acyclic-path enumeration over go/ssa with per-path phi resolution and branch facts (contradiction rule on the planner predicates, constant propagation and table agreement on the planner), dominance facts and assumption-pruned reachability in the executor",
-		LevelText: "Decides structural necessary conditions only: the planner predicates combine recursive results soundly for and/or/not/xor; a source is flagged sorted only when its enumerator yields the requested order; every restricted source is guarded by the predicate that justifies it, on the same constraint the matcher is compiled from; results are appended only on a match; results are dropped early only for sorted sources; unsorted sources are post-sorted and truncated. Does not decide matcher semantics, leaf cases of the predicates, enumerator contents/order, comparators, or any concrete query.",
+		LevelText: "Decides structural necessary conditions only: the planner predicates combine recursive results soundly for and/or/not/xor; a source is flagged sorted only when its enumerator yields the requested order; every restricted source is guarded by the predicate that justifies it, on the same constraint the matcher is compiled from; results are appended only on a match; results are dropped early only for sorted sources; unsorted sources are post-sorted and truncated; the cached orders the sorted sources enumerate are invalidated by every live write of their inputs. Does not decide matcher semantics, leaf cases of the predicates, enumerator contents/order, comparators, or any concrete query.",
 	})
 }
 
@@ -1860,4 +1861,25 @@ func runC08(p *Program, r *Reporter) {
 	for _, e := range execs {
 		c08RuleExecutor(p, r, e, sorts)
 	}
+	c08RuleFresh(p, r)
+}
+
+// c08RuleFresh is C06's K-inval reported under C08 as P-fresh (like E-close/G-enum):
+// the sources pickCandidateSource flags as sorted enumerate the corpus'
+// generation-stamped sorted-permanode caches, so "the results are in the requested
+// order, and with a limit the first N" needs those caches to be invalidated by every
+// live write of what their order is computed from, and served only when fresh.
+func c08RuleFresh(p *Program, r *Reporter) {
+	sub := NewReporter("C06", p)
+	cx := c06Setup(p, sub)
+	c06RuleInval(cx)
+	n := 0
+	for _, o := range sub.Obls {
+		if o.Rule != "K-inval" {
+			continue
+		}
+		n++
+		r.add("P-fresh", o.Construct, o.Site, o.Status, o.Nontrivial, o.Detail)
+	}
+	r.Floor("P-fresh", sub.floors["K-inval"])
 }
